@@ -348,5 +348,521 @@ theorem allBlocked_postFromH (blk : Obj → Bool) (T : Tables) (w : World V) (o 
     · simp only [hb, if_true]; intro q hq; simp only [List.mem_singleton] at hq; rw [hq]; exact hb
     · simp only [hb]; exact allBlocked_ev _ _
 
+/-! ### stamps do not move routes -/
+
+theorem glyphDeliv_congr (T : Tables) (gs gs' : Layer) (hw : ∀ a, watchers gs' a = watchers gs a) (n : Nat) :
+    ∀ a ns, glyphDeliv n T gs' a ns = glyphDeliv n T gs a ns := by
+  induction n with
+  | zero => intro a ns; rfl
+  | succ n ih =>
+    intro a ns
+    have hf : glyphDeliv n T gs' = glyphDeliv n T gs := funext fun a => funext fun ns => ih a ns
+    rw [glyphDeliv, glyphDeliv, hw a, hf]
+
+/-- what the routes read of a component: id, base glyph, registration -/
+def skel (k : CompS) : Nat × Option String × Watch := (k.id, k.base, k.watch)
+
+def wOf (a name : String) (comps : List CompS) : List (String × Nat) :=
+  (comps.filter (watchesBase a)).map fun k => (name, k.id)
+
+theorem wOf_skel (a name : String) : ∀ (c c' : List CompS), c'.map skel = c.map skel → wOf a name c' = wOf a name c := by
+  intro c
+  induction c with
+  | nil => intro c' h; cases c' with
+    | nil => rfl
+    | cons x r => simp at h
+  | cons k r ih =>
+    intro c' h
+    cases c' with
+    | nil => simp at h
+    | cons k' r' =>
+      simp only [List.map_cons, List.cons.injEq] at h
+      obtain ⟨hk, hr⟩ := h
+      have := ih r' hr
+      unfold wOf at this ⊢
+      unfold skel at hk
+      simp only [Prod.mk.injEq] at hk
+      obtain ⟨h1, h2, h3⟩ := hk
+      have hwb : watchesBase a k' = watchesBase a k := by unfold watchesBase; rw [h2, h3]
+      simp only [List.filter_cons, hwb]
+      cases watchesBase a k with
+      | true => simp only [if_true, List.map_cons, h1, this]
+      | false => simpa using this
+
+theorem watchers_eq (gs : Layer) (a : String) : watchers gs a = gs.flatMap fun p => wOf a p.1 p.2.comps := rfl
+
+theorem watchers_set (gs : Layer) (h : String) (g g' : GlyphS) (hg : AL.get? gs h = some g)
+    (hs : g'.comps.map skel = g.comps.map skel) (a : String) : watchers (AL.set gs h g') a = watchers gs a := by
+  rw [watchers_eq, watchers_eq]
+  induction gs with
+  | nil => simp at hg
+  | cons p r ih =>
+    obtain ⟨k', v'⟩ := p
+    by_cases h1 : k' = h
+    · subst h1
+      simp only [AL.get?_cons, if_true, Option.some.injEq] at hg
+      subst hg
+      simp only [AL.set, if_true, List.flatMap_cons]
+      rw [wOf_skel a k' _ _ hs]
+    · simp only [AL.get?_cons, h1, if_false] at hg
+      simp only [AL.set, h1, if_false, List.flatMap_cons]
+      rw [ih hg]
+
+theorem hostName_set (gs : Layer) (h : String) (g g' : GlyphS) (pred : GlyphS → Bool)
+    (hn : (AL.keys gs).Nodup) (hg : AL.get? gs h = some g) (hp : pred g' = pred g) :
+    ((AL.set gs h g').find? (fun p => pred p.2)).map (fun p => p.1) = (gs.find? (fun p => pred p.2)).map (fun p => p.1) := by
+  rw [find?_set_congr gs h g g' pred hn hg hp]
+  cases gs.find? (fun p => pred p.2) with
+  | none => rfl
+  | some p =>
+    simp only [Option.map_some]
+    by_cases e : p.1 = h <;> simp [e]
+
+/-- a glyph record replaced by one with the same children (ids, base names, registrations): the routes are the same -/
+theorem postAt_set (n : Nat) (T : Tables) (gs : Layer) (h : String) (g g' : GlyphS)
+    (hn : (AL.keys gs).Nodup) (hg : AL.get? gs h = some g)
+    (hs : g'.comps.map skel = g.comps.map skel)
+    (hc : ∀ cid, hasContour cid g' = hasContour cid g) (hk : ∀ kid, hasComp kid g' = hasComp kid g)
+    (o : Obj) (ns : List String) : postAt n T (AL.set gs h g') o ns = postAt n T gs o ns := by
+  have hgd := glyphDeliv_congr T gs (AL.set gs h g') (watchers_set gs h g g' hg hs)
+  cases o with
+  | contour cid =>
+    simp only [postAt]
+    have := hostName_set gs h g g' (hasContour cid) hn hg (hc cid)
+    unfold hostOfContour
+    cases h1 : (AL.set gs h g').find? (fun p => hasContour cid p.2) with
+    | none =>
+      cases h2 : gs.find? (fun p => hasContour cid p.2) with
+      | none => rfl
+      | some q => rw [h1, h2] at this; simp at this
+    | some q1 =>
+      cases h2 : gs.find? (fun p => hasContour cid p.2) with
+      | none => rw [h1, h2] at this; simp at this
+      | some q2 =>
+        rw [h1, h2] at this
+        simp only [Option.map_some, Option.some.injEq] at this
+        simp only [contourDeliv, this, hgd]
+  | comp kid =>
+    simp only [postAt]
+    have := hostName_set gs h g g' (hasComp kid) hn hg (hk kid)
+    unfold hostOfComp
+    cases h1 : (AL.set gs h g').find? (fun p => hasComp kid p.2) with
+    | none =>
+      cases h2 : gs.find? (fun p => hasComp kid p.2) with
+      | none => rfl
+      | some q => rw [h1, h2] at this; simp at this
+    | some q1 =>
+      cases h2 : gs.find? (fun p => hasComp kid p.2) with
+      | none => rw [h1, h2] at this; simp at this
+      | some q2 =>
+        rw [h1, h2] at this
+        simp only [Option.map_some, Option.some.injEq] at this
+        have hf : glyphDeliv n T (AL.set gs h g') = glyphDeliv n T gs := funext fun a => funext fun ns => hgd n a ns
+        simp only [compDeliv, this, hf]
+  | glyph a =>
+    simp only [postAt, AL.contains_set, hgd]
+    by_cases e : h = a
+    · subst e
+      have : AL.contains gs h = true := by rw [AL.contains_iff_get?]; exact ⟨_, hg⟩
+      simp [this]
+    · simp [e]
+  | groups => rfl
+
+theorem bumpComp_skel (clock : Nat) (cell : CCell) (k : CompS) : skel (bumpComp clock cell k) = skel k := by
+  cases cell <;> rfl
+
+theorem postAt_bump (n : Nat) (T : Tables) (w : World V) (hn : (AL.keys w.glyphs).Nodup) (op : Op) (o : Obj)
+    (ns : List String) : postAt n T (bumpOf w op).glyphs o ns = postAt n T w.glyphs o ns := by
+  cases op with
+  | cmut cid meth =>
+    simp only [bumpOf]
+    cases AL.get? contourMutators meth with
+    | none => rfl
+    | some cell =>
+      cases hh : hostOfContour w.glyphs cid with
+      | none =>
+        simp only
+        by_cases hl : w.looseC.any (fun c => c.id = cid) = true
+        · simp only [hl, if_true]; rfl
+        · simp only [hl]; rfl
+      | some hst =>
+        simp only
+        obtain ⟨hg, _⟩ := host_get_contour hn hh
+        show postAt n T (updGlyph w.glyphs hst.1 _) o ns = _
+        rw [updGlyph_eq_set _ hg]
+        exact postAt_set n T w.glyphs hst.1 hst.2 (mapContours cid (bumpContour w.clock cell) hst.2) hn hg rfl
+          (fun c => hasContour_mapContours cid c _ (bumpContour_id w.clock cell) hst.2) (fun _ => rfl) o ns
+  | kmut kid meth =>
+    simp only [bumpOf]
+    cases AL.get? compMutators meth with
+    | none => rfl
+    | some cell =>
+      cases hh : hostOfComp w.glyphs kid with
+      | none =>
+        simp only
+        by_cases hl : w.looseK.any (fun k => k.id = kid) = true
+        · simp only [hl, if_true]; rfl
+        · simp only [hl]; rfl
+      | some hst =>
+        simp only
+        obtain ⟨hg, _⟩ := host_get_comp hn hh
+        show postAt n T (updGlyph w.glyphs hst.1 _) o ns = _
+        rw [updGlyph_eq_set _ hg]
+        refine postAt_set n T w.glyphs hst.1 hst.2 (mapComps kid (bumpComp w.clock cell) hst.2) hn hg ?_ (fun _ => rfl)
+          (fun k => hasComp_mapComps kid k _ (bumpComp_id w.clock cell) hst.2) o ns
+        simp only [mapComps, List.map_map]
+        apply List.map_congr_left
+        intro k _
+        simp only [Function.comp]
+        by_cases e : k.id = kid
+        · simp only [e, if_true]; exact bumpComp_skel _ _ _
+        · simp only [e, if_false]
+  | gmut g meth =>
+    simp only [bumpOf]
+    by_cases hm : glyphMutators.contains meth = true
+    · by_cases hg : AL.contains w.glyphs g = true
+      · simp only [hm, hg, Bool.not_true, Bool.false_eq_true, if_false]
+        obtain ⟨r, hr⟩ := (AL.contains_iff_get? _ _).mp hg
+        show postAt n T (updGlyph w.glyphs g _) o ns = _
+        rw [updGlyph_eq_set _ hr]
+        exact postAt_set n T w.glyphs g r { r with attr := w.clock } hn hr rfl (fun _ => rfl) (fun _ => rfl) o ns
+      · simp only [hm, hg, Bool.not_true, Bool.not_false, Bool.false_eq_true, if_false, if_true]
+    · simp only [hm, Bool.not_false, if_true]
+  | gset meth =>
+    simp only [bumpOf]
+    by_cases hm : groupsMutators.contains meth = true
+    · simp only [hm, Bool.not_true, Bool.false_eq_true, if_false]; rfl
+    · simp only [hm, Bool.not_false, if_true]
+  | _ => rfl
+
+/-! ### an inner mutator under holds delivers or queues everything it delivers without holds -/
+
+theorem covers_nil (n : Nat) (T : Tables) (gs : Layer) (out : Out) : Covers n T gs [] out := by
+  intro e he; cases he
+
+theorem bumpOf_fuel (w : World V) (op : Op) : (bumpOf w op).fuel = w.fuel := by
+  cases op with
+  | cmut cid meth =>
+    simp only [bumpOf]
+    cases AL.get? contourMutators meth with
+    | none => rfl
+    | some cell =>
+      cases hostOfContour w.glyphs cid with
+      | none =>
+        simp only
+        by_cases hl : w.looseC.any (fun c => c.id = cid) = true
+        · simp only [hl, if_true]; rfl
+        · simp only [hl]; rfl
+      | some h => rfl
+  | kmut kid meth =>
+    simp only [bumpOf]
+    cases AL.get? compMutators meth with
+    | none => rfl
+    | some cell =>
+      cases hostOfComp w.glyphs kid with
+      | none =>
+        simp only
+        by_cases hl : w.looseK.any (fun k => k.id = kid) = true
+        · simp only [hl, if_true]; rfl
+        · simp only [hl]; rfl
+      | some h => rfl
+  | gmut g meth =>
+    simp only [bumpOf]
+    by_cases hm : glyphMutators.contains meth = true
+    · by_cases hg : AL.contains w.glyphs g = true
+      · simp only [hm, hg, Bool.not_true, Bool.false_eq_true, if_false]; rfl
+      · simp only [hm, hg, Bool.not_true, Bool.not_false, Bool.false_eq_true, if_false, if_true]
+    · simp only [hm, Bool.not_false, if_true]
+  | gset meth =>
+    simp only [bumpOf]
+    by_cases hm : groupsMutators.contains meth = true
+    · simp only [hm, Bool.not_true, Bool.false_eq_true, if_false]; rfl
+    · simp only [hm, Bool.not_false, if_true]
+  | _ => rfl
+
+theorem covers_evOfH (blk : Obj → Bool) (T : Tables) (w : World V) (op : Op) (hids : IdsOK w)
+    (hids' : IdsOK (bumpOf w op)) :
+    Covers w.fuel T (bumpOf w op).glyphs (evOf T w op) (evOfH blk T w op) := by
+  have hok := hostsOK_of_ids hids'
+  cases op with
+  | cmut cid meth =>
+    simp only [evOf, evOfH]
+    cases hm : AL.get? contourMutators meth with
+    | none => exact covers_nil _ _ _ _
+    | some cell =>
+      cases hh : hostOfContour w.glyphs cid with
+      | none => exact covers_nil _ _ _ _
+      | some hst =>
+        simp only
+        obtain ⟨hg, _⟩ := host_get_contour hids.keys hh
+        have hgl : (bumpOf w (.cmut cid meth)).glyphs =
+            AL.set w.glyphs hst.1 (mapContours cid (bumpContour w.clock cell) hst.2) := by
+          simp only [bumpOf, hm, hh]
+          show updGlyph w.glyphs hst.1 _ = _
+          rw [updGlyph_eq_set _ hg]
+        refine covers_contourDeliv blk T _ hok w.fuel hst.1 cid _ ?_ ?_
+        · rw [hgl]
+          have := hostName_set w.glyphs hst.1 hst.2 (mapContours cid (bumpContour w.clock cell) hst.2) (hasContour cid)
+            hids.keys hg (hasContour_mapContours cid cid _ (bumpContour_id w.clock cell) hst.2)
+          unfold hostOfContour
+          rw [this]
+          unfold hostOfContour at hh
+          rw [hh]; rfl
+        · rw [hgl, AL.contains_set]; simp
+  | kmut kid meth =>
+    simp only [evOf, evOfH]
+    cases hm : AL.get? compMutators meth with
+    | none => exact covers_nil _ _ _ _
+    | some cell =>
+      cases hh : hostOfComp w.glyphs kid with
+      | none => exact covers_nil _ _ _ _
+      | some hst =>
+        simp only
+        obtain ⟨hg, _⟩ := host_get_comp hids.keys hh
+        have hgl : (bumpOf w (.kmut kid meth)).glyphs =
+            AL.set w.glyphs hst.1 (mapComps kid (bumpComp w.clock cell) hst.2) := by
+          simp only [bumpOf, hm, hh]
+          show updGlyph w.glyphs hst.1 _ = _
+          rw [updGlyph_eq_set _ hg]
+        refine covers_compDeliv blk T _ hok w.fuel hst.1 kid _ ?_ ?_
+        · rw [hgl]
+          have := hostName_set w.glyphs hst.1 hst.2 (mapComps kid (bumpComp w.clock cell) hst.2) (hasComp kid)
+            hids.keys hg (hasComp_mapComps kid kid _ (bumpComp_id w.clock cell) hst.2)
+          unfold hostOfComp
+          rw [this]
+          unfold hostOfComp at hh
+          rw [hh]; rfl
+        · rw [hgl, AL.contains_set]; simp
+  | gmut g meth =>
+    simp only [evOf, evOfH]
+    by_cases hm : glyphMutators.contains meth = true
+    · by_cases hg : AL.contains w.glyphs g = true
+      · simp only [hm, hg, Bool.not_true, Bool.false_eq_true, if_false]
+        refine covers_glyphDeliv blk T _ hok w.fuel g _ ?_
+        obtain ⟨r, hr⟩ := (AL.contains_iff_get? _ _).mp hg
+        have hgl : (bumpOf w (.gmut g meth)).glyphs = AL.set w.glyphs g { r with attr := w.clock } := by
+          simp only [bumpOf, hm, hg, Bool.not_true, Bool.false_eq_true, if_false]
+          show updGlyph w.glyphs g _ = _
+          rw [updGlyph_eq_set _ hr]
+        rw [hgl, AL.contains_set]; simp
+      · simp only [hm, hg, Bool.not_true, Bool.not_false, Bool.false_eq_true, if_false, if_true]
+        exact covers_nil _ _ _ _
+    · simp only [hm, Bool.not_false, if_true]
+      exact covers_nil _ _ _ _
+  | gset meth =>
+    simp only [evOf, evOfH]
+    by_cases hm : groupsMutators.contains meth = true
+    · simp only [hm, Bool.not_true, Bool.false_eq_true, if_false]
+      have := covers_postFromH blk T w hids .groups (T.postsOf "Groups" meth)
+      have hgl : (bumpOf w (.gset meth)).glyphs = w.glyphs := by
+        simp only [bumpOf, hm, Bool.not_true, Bool.false_eq_true, if_false]; rfl
+      rw [hgl]
+      exact this
+    · simp only [hm, Bool.not_false, if_true]
+      exact covers_nil _ _ _ _
+  | touch o meth =>
+    simp only [evOf, evOfH]
+    have := covers_postFromH blk T w hids o (T.postsOf o.cls meth)
+    have e : postAt w.fuel T w.glyphs o (T.postsOf o.cls meth) = postFrom T w o (T.postsOf o.cls meth) := by
+      cases o <;> rfl
+    rw [e] at this
+    exact this
+  | _ => exact covers_nil _ _ _ _
+
+/-! ### stamps do not move objects -/
+
+theorem attached_set_gen (w w1 : World V) (h : String) (g g' : GlyphS) (hn : (AL.keys w.glyphs).Nodup)
+    (hg : AL.get? w.glyphs h = some g) (hgs : w1.glyphs = AL.set w.glyphs h g')
+    (hc : ∀ cid, hasContour cid g' = hasContour cid g) (hk : ∀ kid, hasComp kid g' = hasComp kid g) (o : Obj) :
+    attached w1 o = attached w o := by
+  cases o with
+  | contour cid => exact attached_contour_set w w1 h g g' hn hg hgs cid (hc cid)
+  | comp kid => exact attached_comp_set w w1 h g g' hn hg hgs kid (hk kid)
+  | glyph x => exact attached_glyph_set w w1 h g g' hg hgs x
+  | groups => rfl
+
+theorem attached_bump (w : World V) (hn : (AL.keys w.glyphs).Nodup) (op : Op) (o : Obj) :
+    attached (bumpOf w op) o = attached w o := by
+  cases op with
+  | cmut cid meth =>
+    cases hm : AL.get? contourMutators meth with
+    | none => simp only [bumpOf, hm]
+    | some cell =>
+      cases hh : hostOfContour w.glyphs cid with
+      | none =>
+        simp only [bumpOf, hm, hh]
+        by_cases hl : w.looseC.any (fun c => c.id = cid) = true
+        · simp only [hl, if_true]; cases o <;> rfl
+        · simp only [hl]; rfl
+      | some hst =>
+        obtain ⟨hg, _⟩ := host_get_contour hn hh
+        refine attached_set_gen w _ hst.1 hst.2 (mapContours cid (bumpContour w.clock cell) hst.2) hn hg ?_
+          (fun c => hasContour_mapContours cid c _ (bumpContour_id w.clock cell) hst.2) (fun _ => rfl) o
+        simp only [bumpOf, hm, hh]
+        show updGlyph w.glyphs hst.1 _ = _
+        rw [updGlyph_eq_set _ hg]
+  | kmut kid meth =>
+    cases hm : AL.get? compMutators meth with
+    | none => simp only [bumpOf, hm]
+    | some cell =>
+      cases hh : hostOfComp w.glyphs kid with
+      | none =>
+        simp only [bumpOf, hm, hh]
+        by_cases hl : w.looseK.any (fun k => k.id = kid) = true
+        · simp only [hl, if_true]; cases o <;> rfl
+        · simp only [hl]; rfl
+      | some hst =>
+        obtain ⟨hg, _⟩ := host_get_comp hn hh
+        refine attached_set_gen w _ hst.1 hst.2 (mapComps kid (bumpComp w.clock cell) hst.2) hn hg ?_
+          (fun _ => rfl) (fun k => hasComp_mapComps kid k _ (bumpComp_id w.clock cell) hst.2) o
+        simp only [bumpOf, hm, hh]
+        show updGlyph w.glyphs hst.1 _ = _
+        rw [updGlyph_eq_set _ hg]
+  | gmut g meth =>
+    by_cases hm : glyphMutators.contains meth = true
+    · by_cases hg : AL.contains w.glyphs g = true
+      · obtain ⟨r, hr⟩ := (AL.contains_iff_get? _ _).mp hg
+        refine attached_set_gen w _ g r { r with attr := w.clock } hn hr ?_ (fun _ => rfl) (fun _ => rfl) o
+        simp only [bumpOf, hm, hg, Bool.not_true, Bool.false_eq_true, if_false]
+        show updGlyph w.glyphs g _ = _
+        rw [updGlyph_eq_set _ hr]
+      · simp only [bumpOf, hm, hg, Bool.not_true, Bool.not_false, Bool.false_eq_true, if_false, if_true]
+    · simp only [bumpOf, hm, Bool.not_false, if_true]
+  | gset meth =>
+    simp only [bumpOf]
+    by_cases hm : groupsMutators.contains meth = true
+    · simp only [hm, Bool.not_true, Bool.false_eq_true, if_false]; cases o <;> rfl
+    · simp only [hm, Bool.not_false, if_true]
+  | _ => rfl
+
+/-! ### the invariant under holds -/
+
+theorem owedBy_mono {T : Tables} {w : World V} {Q Q' : List (Obj × List String)} {o : Obj} {nm : String}
+    (h : ∀ q, q ∈ Q → q ∈ Q') (ho : OwedBy T w Q o nm) : OwedBy T w Q' o nm := by
+  obtain ⟨q, hq, hh⟩ := ho
+  exact ⟨q, h q hq, hh⟩
+
+theorem enqueue_nodis (hw : HWorld V) (hnd : hw.disabled = []) (q : List (Obj × List String)) :
+    hw.enqueue q = hw.queue ++ q := by
+  unfold HWorld.enqueue HWorld.dis
+  rw [hnd]
+  simp [AL.contains]
+
+/-- the evictions and the queue of one inner mutator under holds keep `InvH` (before its direct cache calls) -/
+theorem invH_inner (P : Params V) (T : Tables) (hcov : Coverage T = true) (hw : HWorld V) (op : Op)
+    (hin : op.isInner = true) (hinv : InvH P T hw) (hd : Dom hw.w) (hd' : Dom (bumpOf hw.w op)) :
+    InvH P T { hw with w := applyDeliv T (bumpOf hw.w op) (evOfH hw.blk T hw.w op).ev,
+                       queue := hw.enqueue (evOfH hw.blk T hw.w op).q } := by
+  generalize hout : evOfH hw.blk T hw.w op = out
+  have hss := sameStruct_applyDeliv T (bumpOf hw.w op) out.ev
+  have hcov' := covers_evOfH hw.blk T hw.w op hd.ids hd'.ids
+  rw [hout] at hcov'
+  have henq := enqueue_nodis hw hinv.nodis out.q
+  have hcache : ∀ o, cacheOf (bumpOf hw.w op) o = cacheOf hw.w o := by
+    intro o; unfold cacheOf; rw [bumpOf_caches]
+  refine ⟨?_, ?_, ?_, ?_, ?_, hinv.nodis⟩
+  · intro o nm sk v hv
+    simp only at hv ⊢
+    rw [get?_applyDeliv_eq, bumpOf_regs] at hv
+    by_cases hany : out.ev.any (fun e => hitB T hw.w.regs e o nm) = true
+    · simp [hany] at hv
+    · simp only [hany, Bool.false_eq_true, if_false] at hv
+      rw [hcache] at hv
+      have hatt : attached hw.w o = true := by
+        cases ha : attached hw.w o with
+        | true => rfl
+        | false => rw [hinv.loose o ha nm sk] at hv; cases hv
+      rcases hinv.coh o nm sk v hv with hf | ⟨q, hq, hqh⟩
+      · by_cases hview : viewOf T (bumpOf hw.w op) o nm = viewOf T hw.w o nm
+        · left
+          rw [hf]; unfold fresh
+          rw [viewOf_congr T hss, hview]
+        · right
+          have hreg := (hinv.creg o nm sk v hv).1
+          have hev := dep_event T hcov hw.w op hin hd hd' hinv.rdef o nm hatt hreg hview
+          rw [List.any_eq_true] at hev
+          obtain ⟨e, he, hhit⟩ := hev
+          rcases hcov' e he with h1 | ⟨q, hq, hqe⟩
+          · exfalso
+            apply hany
+            rw [List.any_eq_true]; exact ⟨e, h1, hhit⟩
+          · refine ⟨q, by rw [henq]; exact List.mem_append_right _ hq, ?_⟩
+            rw [hss.fuel, hss.glyphs, hss.regs, bumpOf_fuel, bumpOf_regs]
+            rw [List.any_eq_true]; exact ⟨e, hqe, hhit⟩
+      · right
+        refine ⟨q, by rw [henq]; exact List.mem_append_left _ hq, ?_⟩
+        rw [hss.fuel, hss.glyphs, hss.regs, bumpOf_fuel, bumpOf_regs, postAt_bump _ T hw.w hd.ids.keys]
+        exact hqh
+  · intro o ha nm sk
+    simp only at ha ⊢
+    rw [attached_congr hss, attached_bump hw.w hd.ids.keys] at ha
+    rw [get?_applyDeliv_eq, hcache, hinv.loose o ha nm sk]
+    simp
+  · intro o nm sk v hv
+    simp only at hv ⊢
+    rw [get?_applyDeliv_eq, bumpOf_regs] at hv
+    by_cases hany : out.ev.any (fun e => hitB T hw.w.regs e o nm) = true
+    · simp [hany] at hv
+    · simp only [hany, Bool.false_eq_true, if_false] at hv
+      rw [hcache] at hv
+      rw [hss.regs, bumpOf_regs]
+      exact hinv.creg o nm sk v hv
+  · intro r hr
+    simp only at hr
+    rw [hss.regs, bumpOf_regs] at hr
+    exact hinv.rdef r hr
+  · intro q hq
+    simp only at hq
+    rw [henq, List.mem_append] at hq
+    rcases hq with hq | hq
+    · exact hinv.qheld q hq
+    · have hb : AllBlocked hw.blk out := by
+        rw [← hout]
+        cases op with
+        | cmut cid meth =>
+          simp only [evOfH]
+          cases AL.get? contourMutators meth with
+          | none => exact allBlocked_empty _
+          | some cell =>
+            cases hh : hostOfContour hw.w.glyphs cid with
+            | none => exact allBlocked_empty _
+            | some hst =>
+              simp only [contourDelivH]
+              by_cases hb : hw.blk (.contour cid) = true
+              · simp only [hb, if_true]; intro q hq; simp only [List.mem_singleton] at hq; rw [hq]; exact hb
+              · simp only [hb, Bool.false_eq_true, if_false]
+                refine allBlocked_app (allBlocked_ev _ _) ?_
+                split
+                · exact allBlocked_glyphDelivH _ T _ _ _ _
+                · exact allBlocked_empty _
+        | kmut kid meth =>
+          simp only [evOfH]
+          cases AL.get? compMutators meth with
+          | none => exact allBlocked_empty _
+          | some cell =>
+            cases hh : hostOfComp hw.w.glyphs kid with
+            | none => exact allBlocked_empty _
+            | some hst => exact allBlocked_compRelayH _ _ T _ _ _ (allBlocked_glyphDelivH _ T _ _)
+        | gmut g meth =>
+          simp only [evOfH]
+          split
+          · exact allBlocked_empty _
+          · split
+            · exact allBlocked_empty _
+            · exact allBlocked_glyphDelivH _ T _ _ _ _
+        | gset meth =>
+          simp only [evOfH]
+          split
+          · exact allBlocked_empty _
+          · exact allBlocked_postFromH _ T _ _ _
+        | touch o meth => exact allBlocked_postFromH _ T _ _ _
+        | _ => cases hin
+      have := hb q hq
+      unfold HWorld.blk at this
+      unfold HWorld.dis at this
+      rw [hinv.nodis] at this
+      have h2 : hw.held q.1 = true := by simpa [AL.contains] using this
+      exact h2
+
 end Repr
 end DefconModel
